@@ -6,16 +6,38 @@ import Rooc.Syntax.Wire
 namespace Rooc.Drv.C09
 open Rooc Sexp Rooc.Syntax
 
-def encRes : TextRes → Sexp
-  | .ok t => app "ok" [t.enc]
-  | .err .reject => app "err" [.atom "reject"]
-  | .err .panic => app "err" [.atom "panic"]
-  | .err .fuel => app "err" [.atom "fuel"]
+mutual
+/-- the tree carries an array literal whose display the model does not compute -/
+def hasOpaque : PExp → Bool
+  | .prim d => d == opaquePrim
+  | .cvar _ as | .access _ as | .call _ as | .block _ as => hasOpaqueList as
+  | .scoped _ _ its b => hasOpaqueList its || hasOpaque b
+  | .bin _ l r => hasOpaque l || hasOpaque r
+  | .un _ e => hasOpaque e
+  | _ => false
+def hasOpaqueList : List PExp → Bool
+  | [] => false
+  | e :: es => hasOpaque e || hasOpaqueList es
+end
+
+/-- answer of the parser model with the class of a rejection: `peg` (the grammar does not match) or the first
+error of the AST builder -/
+def encText (s : List Char) : Sexp :=
+  match lex s with
   | .unsupported => app "err" [.atom "unsupported"]
+  | .ok toks =>
+    match parseToksRaw toks with
+    | .error .reject => app "err" [.atom "reject", .atom "peg"]
+    | .error .panic => app "err" [.atom "panic"]
+    | .error .fuel => app "err" [.atom "fuel"]
+    | .ok t =>
+      match buildErr t with
+      | some e => app "err" [.atom "reject", .atom e]
+      | none => if hasOpaque t then app "err" [.atom "unsupported"] else app "ok" [t.enc]
 
 /-- model requests for C09: `(parse "<text>")` → the `PreExp` the objective `min <text>` parses to. -/
 def handle (α : Type) [Arith α] [Wire α] : List Sexp → Sexp
-  | [.atom "parse", .str s] => encRes (parseText s.toList)
+  | [.atom "parse", .str s] => encText s.toList
   | _ => app "err" [.atom "bad-request"]
 
 def lowerChar (c : Char) : Char := if decide ('A' ≤ c) && decide (c ≤ 'Z') then Char.ofNat (c.toNat + 32) else c
